@@ -17,6 +17,10 @@ pub mod c21_remote_lifecycle;
 pub mod c22_resolve;
 pub mod c23_prune_paths;
 pub mod c24_path_selection;
+pub mod c17_relay_recv;
+pub mod c18_mapped_addrs;
+pub mod c19_send_dispatch;
+pub mod c20_bind_order;
 pub mod c02_encodings;
 pub mod c03_handshake;
 pub mod c04_forwarding;
@@ -46,6 +50,10 @@ pub const REGISTRY: &[Prop] = &[
     Prop { id: "C22", level: "exploration", watchdog_quick_s: 900, watchdog_thorough_s: 5400, run: c22_resolve::run },
     Prop { id: "C23", level: "exploration", watchdog_quick_s: 600, watchdog_thorough_s: 3600, run: c23_prune_paths::run },
     Prop { id: "C24", level: "exploration", watchdog_quick_s: 600, watchdog_thorough_s: 3600, run: c24_path_selection::run },
+    Prop { id: "C17", level: "exploration", watchdog_quick_s: 900, watchdog_thorough_s: 7200, run: c17_relay_recv::run },
+    Prop { id: "C18", level: "exploration", watchdog_quick_s: 900, watchdog_thorough_s: 7200, run: c18_mapped_addrs::run },
+    Prop { id: "C19", level: "exploration", watchdog_quick_s: 900, watchdog_thorough_s: 7200, run: c19_send_dispatch::run },
+    Prop { id: "C20", level: "exploration", watchdog_quick_s: 600, watchdog_thorough_s: 3600, run: c20_bind_order::run },
 ];
 
 /// In-target oracles of the libFuzzer targets (see /verif/fuzzing/fuzz).  Panics on a violation.
